@@ -70,4 +70,74 @@ impl Clone for StackObject {
     { unimplemented!() }
 }
 
+
+// ---- payload computations (R4/R5/R6): text parsing and byte conversions ------------------------
+// Results that only end up as payload *contents* are opaque.  Results that steer control flow or
+// name a memo index have uninterpreted / vstd specs and are tied to the emitted bytes by the
+// emitter contracts (Kani side).
+pub uninterp spec fn vf_parse_index(b: Seq<u8>) -> Option<usize>;
+pub uninterp spec fn vf_line_parts(b: Seq<u8>) -> int;
+
+#[verifier::external_body]
+pub fn vf_le_bytes_to_i64(b: &[u8]) -> (r: i64) { unimplemented!() }
+#[verifier::external_body]
+pub fn vf_parse_i64(b: &[u8]) -> (r: i64) { unimplemented!() }
+#[verifier::external_body]
+pub fn vf_parse_f64(b: &[u8]) -> (r: f64) { unimplemented!() }
+/// from_utf8(b).ok().and_then(|s| s.trim().parse::<usize>().ok())
+#[verifier::external_body]
+pub fn vf_parse_usize(b: &[u8]) -> (r: Option<usize>)
+    ensures r == vf_parse_index(b@)
+{ unimplemented!() }
+#[verifier::external_body]
+pub fn vf_i32_from_le_bytes(b: [u8; 4]) -> (r: i32) { unimplemented!() }
+#[verifier::external_body]
+pub fn vf_u16_from_le_bytes(b: [u8; 2]) -> (r: u16) { unimplemented!() }
+#[verifier::external_body]
+pub fn vf_f64_from_be_bytes(b: [u8; 8]) -> (r: f64) { unimplemented!() }
+#[verifier::external_body]
+pub fn vf_u32_from_le_bytes(b: [u8; 4]) -> (r: u32)
+    ensures r == vstd::bytes::spec_u32_from_le_bytes(seq![b@[0], b@[1], b@[2], b@[3]])
+{ unimplemented!() }
+#[verifier::external_body]
+pub fn vf_to_vec(b: &[u8]) -> (r: Vec<u8>)
+    ensures r@ == b@
+{ unimplemented!() }
+
+#[verifier::external_body]
+pub struct VfCow { inner: usize }
+#[verifier::external_body]
+pub struct VfStr { inner: usize }
+pub uninterp spec fn vf_cow_bytes(c: &VfCow) -> Seq<u8>;
+#[verifier::external_body]
+pub fn vf_from_utf8_lossy(b: &[u8]) -> (r: VfCow)
+    ensures vf_cow_bytes(&r) == b@
+{ unimplemented!() }
+impl VfCow {
+    #[verifier::external_body]
+    pub fn into_owned(self) -> (r: String) { unimplemented!() }
+}
+/// `s.split('\n').collect::<Vec<&str>>()`
+#[verifier::external_body]
+pub fn vf_split_lines(s: &VfCow) -> (r: Vec<VfStr>)
+    ensures r@.len() == vf_line_parts(vf_cow_bytes(s))
+{ unimplemented!() }
+impl VfStr {
+    #[verifier::external_body]
+    pub fn to_string(&self) -> (r: String) { unimplemented!() }
+}
+
+pub assume_specification<T> [<[T]>::reverse] (s: &mut [T])
+    ensures final(s)@ == old(s)@.reverse();
+
+// payload only: the extended vector is some vector (contents are not modelled)
+pub assume_specification<T, A, I> [<std::vec::Vec<T, A> as std::iter::Extend<T>>::extend] (_0: &mut std::vec::Vec<T, A>, _1: I)
+    where A: std::alloc::Allocator, I: std::iter::IntoIterator<Item = T>;
+
 } // verus!
+
+// Pointer-based Hash / Eq of the real StackObjectRef (src/stack.rs): only their existence matters
+// here (HashMap/HashSet payload operations need the bounds); payload contents are not modelled.
+impl PartialEq for StackObjectRef { fn eq(&self, _other: &Self) -> bool { unimplemented!() } }
+impl Eq for StackObjectRef {}
+impl std::hash::Hash for StackObjectRef { fn hash<H: std::hash::Hasher>(&self, _state: &mut H) { unimplemented!() } }
